@@ -165,3 +165,12 @@ package funcs
 //@ ensures[C11] ncalls(json.Unmarshal) == 1 && callres(json.Unmarshal, 0, 0) != nil ==> result != nil && ncalls((*PlReg).ReturnAppend) == 0
 //@ ensures[C11] result == nil ==> ncalls(json.Unmarshal) == 1 && callres(json.Unmarshal, 0, 0) == nil && ncalls((*PlReg).ReturnAppend) == 1
 //@ ensures[C11] callres(RunStmt, 0, 2) == nil && callres(RunStmt, 0, 1) != ast.String ==> result != nil
+
+// the cast table: one row per type word (matched case-insensitively); anything else yields nil
+//@ func doCast
+//@ ensures[C11] ncalls(strings.ToLower) == 1 && callarg(strings.ToLower, 0, 0) == tInfo
+//@ ensures[C11] callres(strings.ToLower, 0, 0) == "bool" ==> result1 == ast.Bool && ncalls(cast.ToBool) == 1 && callarg(cast.ToBool, 0, 0) == result && result0 == any(callres(cast.ToBool, 0, 0))
+//@ ensures[C11] callres(strings.ToLower, 0, 0) == "int" ==> result1 == ast.Int && ncalls(cast.ToFloat64) == 1 && callarg(cast.ToFloat64, 0, 0) == result && ncalls(cast.ToInt64) == 1 && callarg(cast.ToInt64, 0, 0) == any(callres(cast.ToFloat64, 0, 0)) && result0 == any(callres(cast.ToInt64, 0, 0))
+//@ ensures[C11] callres(strings.ToLower, 0, 0) == "float" ==> result1 == ast.Float && ncalls(cast.ToFloat64) == 1 && callarg(cast.ToFloat64, 0, 0) == result && result0 == any(callres(cast.ToFloat64, 0, 0))
+//@ ensures[C11] callres(strings.ToLower, 0, 0) == "str" ==> result1 == ast.String && ncalls(cast.ToString) == 1 && callarg(cast.ToString, 0, 0) == result && result0 == any(callres(cast.ToString, 0, 0))
+//@ ensures[C11] callres(strings.ToLower, 0, 0) != "bool" && callres(strings.ToLower, 0, 0) != "int" && callres(strings.ToLower, 0, 0) != "float" && callres(strings.ToLower, 0, 0) != "str" ==> result0 == nil && result1 == ast.Nil
